@@ -1,4 +1,5 @@
 import Prom.Lemmas.C04Esc
+import Prom.Lemmas.TextRT.Main
 
 namespace Prom.C04
 open Prom Prom.Text Prom.TextParse
@@ -66,5 +67,82 @@ theorem header_lines (f : Family) (hname : (10 : UInt8) ∉ f.name) :
     backslash-n survives the round trip (instance of the general theorem) -/
 example : unescape true (escapeString true (bs "C:\\é\"x\"\n\\n")) = some (bs "C:\\é\"x\"\n\\n") :=
   unescape_escape _ _
+
+
+/-! ### the whole document -/
+
+/-- **roundtrip** — for well-formed families (`RT.WF`: valid metric and label names, help not
+    starting with a blank or tab, a supported type, at least one sample, value slots matching the
+    type) the bytes the encoder writes are read back by the independent text-format reader to exactly
+    the same families: same order, names, help, types, label lists and sample values (finite values
+    bit-exact, ±Inf preserved, every NaN as NaN), timestamps, each histogram as its cumulative buckets
+    plus a `+Inf` bucket equal to the count (unless a `+Inf` bound is already among them), then sum
+    and count — whatever bytes the help texts and label values consist of.
+    Hypotheses about code outside the crate, restricted to the values that occur: `FmtOk`
+    (`f64::to_string` reads back to the same value under the exact decimal reader and contains no
+    blank, LF, quote or backslash — checked by the driver for every value of every run) and `CountsOk`
+    (`u64 as f64` is exact for the counts that occur, i.e. below 2^53). Integer timestamps need no
+    hypothesis (`RT.int_roundtrip`). -/
+theorem roundtrip (fmt : UInt64 → Str) (fams : List Family) (hwf : RT.WF fams)
+    (hf : RT.FmtOk fmt (RT.valuesOf fams)) (hc : RT.CountsOk (RT.countsOf fams)) :
+    (encode fmt fams).2 = true ∧ parse (encode fmt fams).1 = some (canon fams) :=
+  RT.roundtrip_doc fmt fams hwf hf hc
+
+/-- **lines_shape** — the number of lines of the exposition is a function of the shape of the
+    families only (help present or not, type, number of samples / buckets / quantiles): no help
+    text, label value or number can add or remove a line -/
+theorem lines_shape (fmt : UInt64 → Str) (fams : List Family) (hwf : RT.WF fams) (hf : RT.FmtOk fmt (RT.valuesOf fams)) :
+    (encode fmt fams).1.count 10 = (fams.map RT.famLineCount).sum :=
+  RT.lines_shape_doc fmt fams hwf hf
+
+/-- the output is exactly the document's lines, each followed by one LF (nothing else is written) -/
+theorem output_is_lines (fmt : UInt64 → Str) (fams : List Family)
+    (h : ∀ f ∈ fams, f.samples ≠ [] ∧ f.name ≠ [] ∧ f.ty ≠ .untyped) :
+    encode fmt fams = (RT.joinLines (RT.docLines fmt fams), true) :=
+  RT.encode_lines fmt fams h
+
+/-- non-vacuity of `roundtrip`: a counter family whose help contains LF, a quote and a backslash and
+    whose label value contains a multi-byte character, a backslash and a quote, with value 1.0 and a
+    negative timestamp, meets every hypothesis (the formatter maps the one value that occurs to "1") -/
+def exFams : List Family :=
+  [{ name := bs "req:total", help := bs "h\n\"q\"\\", ty := MType.counter,
+     samples := [{ labels := [⟨bs "l", bs "é\\\"x"⟩], val := MVal.counter 0x3FF0000000000000, ts := -5 }] }]
+def exFmt : UInt64 → Str := fun v => if v == 0x3FF0000000000000 then bs "1" else bs "?"
+
+example : (encode exFmt exFams).2 = true ∧ parse (encode exFmt exFams).1 = some (canon exFams) := by
+  refine roundtrip exFmt exFams ?_ ?_ ?_
+  · intro f hf
+    simp only [exFams, List.mem_singleton] at hf
+    subst hf
+    refine ⟨by decide +kernel, ?_, by decide, by simp, ?_, ?_⟩
+    · intro b r h
+      have : (bs "h\n\"q\"\\") = [104, 10, 34, 113, 34, 92] := by decide +kernel
+      rw [this] at h
+      cases h
+      decide
+    · intro s hs
+      simp only [List.mem_singleton] at hs
+      subst hs; rfl
+    · intro s hs l hl
+      simp only [List.mem_singleton] at hs
+      subst hs
+      simp only [List.mem_singleton] at hl
+      subst hl
+      decide +kernel
+  · refine ⟨?_, ?_⟩
+    · intro v hv
+      have : v = 0x3FF0000000000000 := by simpa [exFams, RT.valuesOf, RT.sampleValues, Sample.counterVal] using hv
+      subst this
+      decide +kernel
+    · intro v hv b hb
+      have : v = 0x3FF0000000000000 := by simpa [exFams, RT.valuesOf, RT.sampleValues, Sample.counterVal] using hv
+      subst this
+      have : exFmt 0x3FF0000000000000 = [49] := by decide +kernel
+      rw [this] at hb
+      simp only [List.mem_singleton] at hb
+      subst hb
+      decide
+  · intro n hn
+    simp [exFams, RT.countsOf, RT.sampleCounts] at hn
 
 end Prom.C04
